@@ -527,8 +527,10 @@ def run_config(contract, cfg, facets="VCSTRN", prime=None, tier="quick", max_pat
                 with _entry_state(c):
                     try:
                         clauses = contract.post(c, r, *args, **kwargs)
-                    except (AttributeError, TypeError, IndexError, KeyError) as pe:
-                        # the result does not have the shape the postcondition talks about
+                    except (PathAbort, Escape, interp.Unsupported):
+                        raise
+                    except Exception as pe:  # noqa
+                        # the result (or the state of this path) does not have the shape the postcondition talks about
                         clauses = {"V.result_shape": z3.BoolVal(False)}
                         res.setdefault("exc_by_path", {})[psig + "/post"] = "postcondition not evaluable on the returned object: %s: %s" % (type(pe).__name__, str(pe)[:120])
                 sat_a = None
@@ -573,9 +575,15 @@ def run_config(contract, cfg, facets="VCSTRN", prime=None, tier="quick", max_pat
                     sig = (g.trace_sig(start), _result_sig(c, r))
                     secret = _secret_coefs(g, start)
                     res["sigs"][psig] = (repr(sig), secret)
-                    if P.solver.check() == z3.sat:
-                        res.setdefault("path_models", {})[psig] = {
-                            k: v for k, v in model_dict(P.solver.model()).items() if k.startswith(("s_", "k_"))}
+                    # an input on which CPython takes this very path (made exact: the raw model of the abstraction may
+                    # get a product or a remainder wrong, and the native replay of T.shape would then compare other paths)
+                    try:
+                        r_, _rounds, _exact = solve_refining(P.solver, P, 3000)
+                    except Exception:  # noqa
+                        r_ = None
+                    if r_ == z3.sat:
+                        pm = getattr(P.solver, "_exact_model", None) or model_dict(P.solver.model())
+                        res.setdefault("path_models", {})[psig] = {k: v for k, v in pm.items() if k.startswith(("s_", "k_"))}
             # frame: nothing outside the declared frame of the function is written (module globals, class
             # attributes, new attributes on operand objects).  The per-call contracts characterise an operand by
             # (value, wire expression) alone; state hidden elsewhere would make them unsound for later calls.
